@@ -117,6 +117,14 @@ pub fn templates() -> Vec<Template> {
         t("mpq", "extract", "all", &MPQS, a, &["mpq", "extract", a, "-o", "out/x"], Some(Entry::MpqReadAll)),
         t("mpq", "extract", "all-skip", &MPQS, a, &["mpq", "extract", a, "-o", "out/x", "--skip-errors", "--threads", "2"], Some(Entry::MpqReadAll)),
         t("mpq", "extract", "named", &MPQS, a, &["mpq", "extract", a, "-o", "out/x", "-p", "readme.txt", "Data\\blob.bin"], Some(Entry::MpqRead { names: vec![s("readme.txt"), s("Data\\blob.bin")] })),
+        t("mpq", "extract", "patch-present", &MPQS, a, &["mpq", "extract", "in/b.mpq", "-o", "out/x", "--patch", a, "readme.txt", "Data\\blob.bin"], Some(Entry::MpqChainRead { others: vec![s(a)], names: vec![s("readme.txt"), s("Data\\blob.bin")] }))
+            .aux("in/b.mpq", "mpq:v2")
+            .on("in/b.mpq"),
+        t("mpq", "extract", "patch-missing", &MPQS, a, &["mpq", "extract", "in/b.mpq", "-o", "out/x", "--patch", a, "readme.txt", "no_such_file.xyz"], Some(Entry::MpqChainRead { others: vec![s(a)], names: vec![s("readme.txt"), s("no_such_file.xyz")] }))
+            .aux("in/b.mpq", "mpq:v2")
+            .on("in/b.mpq")
+            .never_ok(),
+        t("mpq", "extract", "named-missing", &MPQS, a, &["mpq", "extract", a, "-o", "out/x", "readme.txt", "no_such_file.xyz"], Some(Entry::MpqRead { names: vec![s("readme.txt"), s("no_such_file.xyz")] })).never_ok(),
         t("mpq", "create", "plain", &PNGS, "in/payload.bin", &["mpq", "create", "out/new.mpq", "-a", "in/payload.bin", "-a", "in/second.txt", "--version", "v2", "-c", "zlib"], None)
             .aux("in/second.txt", "dbd:text")
             .out("out/new.mpq", Entry::MpqList),
@@ -134,6 +142,8 @@ pub fn templates() -> Vec<Template> {
         t("mpq", "patch-chain", "patch", &MPQS, a, &["mpq", "patch-chain", "in/b.mpq", "--patch", a], Some(Entry::MpqChain { others: vec![s(a)] }))
             .aux("in/b.mpq", "mpq:v2")
             .on("in/b.mpq"),
+        t("mpq", "create", "nodir", &PNGS, "in/payload.bin", &["mpq", "create", "out/nodir/new.mpq", "-a", "in/payload.bin"], None).out("out/nodir/new.mpq", Entry::MpqList).never_ok(),
+        t("mpq", "rebuild", "nodir", &MPQS, a, &["mpq", "rebuild", a, "out/nodir/rb.mpq"], Some(Entry::MpqOpen)).out("out/nodir/rb.mpq", Entry::MpqList).never_ok(),
         // ---- dbc
         t("dbc", "info", "plain", &DBCS, "in/Test.dbc", &["dbc", "info", "in/Test.dbc"], Some(Entry::DbcRecords)),
         t("dbc", "validate", "schema", &DBCS, "in/Test.dbc", &["dbc", "validate", "in/Test.dbc", "-s", "in/schema.yaml"], Some(Entry::DbcSchema { wrong: false })).aux("in/schema.yaml", "yaml:dbc-schema"),
@@ -146,6 +156,10 @@ pub fn templates() -> Vec<Template> {
         t("dbc", "export", "csv", &DBCS, "in/Test.dbc", &["dbc", "export", "in/Test.dbc", "-s", "in/schema.yaml", "-f", "csv", "-o", "out/t.csv"], Some(Entry::DbcSchema { wrong: false }))
             .aux("in/schema.yaml", "yaml:dbc-schema")
             .out("out/t.csv", Entry::Text),
+        t("dbc", "export", "nodir", &DBCS, "in/Test.dbc", &["dbc", "export", "in/Test.dbc", "-s", "in/schema.yaml", "-o", "out/nodir/t.json"], Some(Entry::DbcSchema { wrong: false }))
+            .aux("in/schema.yaml", "yaml:dbc-schema")
+            .out("out/nodir/t.json", Entry::Json)
+            .never_ok(),
         t("dbc", "export", "stdout", &DBCS, "in/Test.dbc", &["dbc", "export", "in/Test.dbc", "-s", "in/schema.yaml"], Some(Entry::DbcSchema { wrong: false })).aux("in/schema.yaml", "yaml:dbc-schema"),
         t("dbc", "analyze", "plain", &DBCS, "in/Test.dbc", &["dbc", "analyze", "in/Test.dbc"], Some(Entry::DbcRecords)),
         t("dbc", "analyze", "schema", &DBCS, "in/Test.dbc", &["dbc", "analyze", "in/Test.dbc", "-s", "in/schema.yaml", "--cache-strings", "--sorted-keys"], Some(Entry::DbcSchema { wrong: false })).aux("in/schema.yaml", "yaml:dbc-schema"),
@@ -163,7 +177,13 @@ pub fn templates() -> Vec<Template> {
         t("blp", "convert", "to-blp2-raw3", &PNGS, "in/img.png", &["blp", "convert", "in/img.png", "out/img.blp", "--blp-version", "blp2", "--blp-format", "raw3"], Some(Entry::ImageDecode)).out("out/img.blp", Entry::BlpLoad),
         t("blp", "convert", "to-blp1-jpeg", &PNGS, "in/img.png", &["blp", "convert", "in/img.png", "out/img.blp"], Some(Entry::ImageDecode)).out("out/img.blp", Entry::BlpLoad),
         t("blp", "convert", "to-blp2-dxt1", &PNGS, "in/img.png", &["blp", "convert", "in/img.png", "out/img.blp", "--blp-version", "blp2", "--blp-format", "dxt1", "--dxt-compression", "fastest"], Some(Entry::ImageDecode)).out("out/img.blp", Entry::BlpLoad),
+        t("blp", "convert", "nodir", &BLPS, "in/tex.blp", &["blp", "convert", "in/tex.blp", "out/nodir/tex.png"], Some(Entry::BlpToImage { level: 0 })).out("out/nodir/tex.png", Entry::ImageDecode).never_ok(),
+        t("blp", "convert", "nodir-blp", &PNGS, "in/img.png", &["blp", "convert", "in/img.png", "out/nodir/img.blp", "--blp-version", "blp2", "--blp-format", "raw3"], Some(Entry::ImageDecode)).out("out/nodir/img.blp", Entry::BlpLoad).never_ok(),
         // ---- m2
+        t("m2", "validate", "no-vertices", &["m2:no-vertices"], "in/model.m2", &["m2", "validate", "in/model.m2"], Some(Entry::M2Validate)).never_ok(),
+        t("m2", "convert", "nodir", &M2S, "in/model.m2", &["m2", "convert", "in/model.m2", "out/nodir/conv.m2", "--version", "wotlk"], Some(Entry::M2Convert { version: s("wotlk") })).out("out/nodir/conv.m2", Entry::M2Load).never_ok(),
+        t("m2", "skin-convert", "nodir", &SKINS, "in/model00.skin", &["m2", "skin-convert", "in/model00.skin", "out/nodir/conv.skin", "--version", "cata"], Some(Entry::SkinConvert { version: s("cata") })).out("out/nodir/conv.skin", Entry::SkinLoad).never_ok(),
+        t("m2", "anim-convert", "nodir", &ANIMS, "in/a.anim", &["m2", "anim-convert", "in/a.anim", "out/nodir/conv.anim", "--version", "wotlk"], Some(Entry::AnimLoad)).out("out/nodir/conv.anim", Entry::AnimLoad).never_ok(),
         t("m2", "info", "detailed", &M2S, "in/model.m2", &["m2", "info", "in/model.m2", "-d"], Some(Entry::M2Load)),
         t("m2", "validate", "plain", &M2S, "in/model.m2", &["m2", "validate", "in/model.m2", "-w"], Some(Entry::M2Validate)),
         t("m2", "convert", "to-wotlk", &M2S, "in/model.m2", &["m2", "convert", "in/model.m2", "out/conv.m2", "--version", "wotlk"], Some(Entry::M2Convert { version: s("wotlk") })).out("out/conv.m2", Entry::M2Load),
@@ -181,6 +201,7 @@ pub fn templates() -> Vec<Template> {
         t("wmo", "info", "detailed", &WMOS, "in/obj.wmo", &["wmo", "info", "in/obj.wmo", "-d"], Some(Entry::WmoMeta)),
         t("wmo", "validate", "plain", &WMOS, "in/obj.wmo", &["wmo", "validate", "in/obj.wmo", "-w", "-d"], Some(Entry::WmoMeta)),
         t("wmo", "convert", "to-cata", &WMO_ROOTS, "in/obj.wmo", &["wmo", "convert", "in/obj.wmo", "out/conv.wmo", "--version", "cata"], Some(Entry::WmoConvert { version: s("cata") })).out("out/conv.wmo", Entry::WmoRootLegacy),
+        t("wmo", "convert", "nodir", &WMO_ROOTS, "in/obj.wmo", &["wmo", "convert", "in/obj.wmo", "out/nodir/conv.wmo", "--version", "cata"], Some(Entry::WmoConvert { version: s("cata") })).out("out/nodir/conv.wmo", Entry::WmoRootLegacy).never_ok(),
         t("wmo", "convert", "group", &["wmo:group"], "in/obj.wmo", &["wmo", "convert", "in/obj.wmo", "out/conv.wmo", "--version", "wotlk"], Some(Entry::WmoConvert { version: s("wotlk") })).out("out/conv.wmo", Entry::WmoRootLegacy).stub(),
         t("wmo", "export", "plain", &WMOS, "in/obj.wmo", &["wmo", "export", "in/obj.wmo", "-o", "out/exp"], Some(Entry::WmoMeta)).stub(),
         t("wmo", "list", "plain", &WMOS, "in/obj.wmo", &["wmo", "list", "in/obj.wmo"], Some(Entry::WmoMeta)).stub(),
@@ -191,6 +212,7 @@ pub fn templates() -> Vec<Template> {
         t("adt", "validate", "plain", &ADTS, "in/tile.adt", &["adt", "validate", "in/tile.adt", "-w", "-l", "strict"], Some(Entry::AdtMeta)),
         t("adt", "convert", "to-wotlk", &ADTS, "in/tile.adt", &["adt", "convert", "in/tile.adt", "out/conv.adt", "--to", "wotlk"], Some(Entry::AdtRoot)).out("out/conv.adt", Entry::AdtMeta),
         t("adt", "convert", "to-classic", &ADTS, "in/tile.adt", &["adt", "convert", "in/tile.adt", "out/conv.adt", "-t", "classic"], Some(Entry::AdtRoot)).out("out/conv.adt", Entry::AdtMeta),
+        t("adt", "convert", "nodir", &ADTS, "in/tile.adt", &["adt", "convert", "in/tile.adt", "out/nodir/conv.adt", "--to", "wotlk"], Some(Entry::AdtRoot)).out("out/nodir/conv.adt", Entry::AdtMeta).never_ok(),
         t("adt", "tree", "plain", &ADTS, "in/tile.adt", &["adt", "tree", "in/tile.adt", "--no-color", "--show-refs"], Some(Entry::AdtMeta)),
         // ---- wdt
         t("wdt", "info", "detailed", &WDTS, "in/map.wdt", &["wdt", "info", "in/map.wdt", "-d"], Some(Entry::WdtRead { version: s("WotLK") })),
@@ -200,6 +222,7 @@ pub fn templates() -> Vec<Template> {
         t("wdt", "convert", "cata-wotlk", &WDTS, "in/map.wdt", &["wdt", "convert", "in/map.wdt", "out/conv.wdt", "-f", "Cataclysm", "-t", "3.3.5a"], Some(Entry::WdtConvert { from: s("Cataclysm"), to: s("3.3.5a") })).out("out/conv.wdt", Entry::WdtRead { version: s("WotLK") }),
         t("wdt", "convert", "wotlk-tbc", &WDTS, "in/map.wdt", &["wdt", "convert", "in/map.wdt", "out/conv.wdt", "-f", "WotLK", "-t", "TBC"], Some(Entry::WdtConvert { from: s("WotLK"), to: s("TBC") })).out("out/conv.wdt", Entry::WdtRead { version: s("TBC") }),
         t("wdt", "convert", "same-version", &WDTS, "in/map.wdt", &["wdt", "convert", "in/map.wdt", "out/conv.wdt", "-f", "WotLK", "-t", "WotLK"], Some(Entry::WdtConvert { from: s("WotLK"), to: s("WotLK") })).out("out/conv.wdt", Entry::WdtRead { version: s("WotLK") }),
+        t("wdt", "convert", "nodir", &WDTS, "in/map.wdt", &["wdt", "convert", "in/map.wdt", "out/nodir/conv.wdt", "-f", "WotLK", "-t", "Cataclysm"], Some(Entry::WdtConvert { from: s("WotLK"), to: s("Cataclysm") })).out("out/nodir/conv.wdt", Entry::WdtRead { version: s("Cataclysm") }).never_ok(),
         t("wdt", "convert", "preview", &WDTS, "in/map.wdt", &["wdt", "convert", "in/map.wdt", "out/conv.wdt", "-f", "WotLK", "-t", "Cataclysm", "-p"], Some(Entry::WdtConvert { from: s("WotLK"), to: s("Cataclysm") })),
         t("wdt", "tiles", "csv", &WDTS, "in/map.wdt", &["wdt", "tiles", "in/map.wdt", "-f", "csv"], Some(Entry::WdtRead { version: s("WotLK") })),
         t("wdt", "tiles", "json", &WDTS, "in/map.wdt", &["wdt", "tiles", "in/map.wdt", "-f", "json"], Some(Entry::WdtRead { version: s("WotLK") })),
@@ -210,6 +233,7 @@ pub fn templates() -> Vec<Template> {
         t("wdl", "validate", "wotlk", &WDLS, "in/map.wdl", &["wdl", "validate", "in/map.wdl", "--version", "WotLK"], Some(Entry::WdlValidate { version: Some(s("wotlk")) })),
         t("wdl", "convert", "to-legion", &WDLS, "in/map.wdl", &["wdl", "convert", "in/map.wdl", "out/conv.wdl", "--to", "Legion"], Some(Entry::WdlConvert { from: None, to: s("legion") })).out("out/conv.wdl", Entry::WdlParse { version: None }),
         t("wdl", "convert", "to-vanilla", &WDLS, "in/map.wdl", &["wdl", "convert", "in/map.wdl", "out/conv.wdl", "--from", "WotLK", "-t", "classic"], Some(Entry::WdlConvert { from: Some(s("wotlk")), to: s("classic") })).out("out/conv.wdl", Entry::WdlParse { version: None }),
+        t("wdl", "convert", "nodir", &WDLS, "in/map.wdl", &["wdl", "convert", "in/map.wdl", "out/nodir/conv.wdl", "--to", "Legion"], Some(Entry::WdlConvert { from: None, to: s("legion") })).out("out/nodir/conv.wdl", Entry::WdlParse { version: None }).never_ok(),
         t("wdl", "tree", "plain", &WDLS, "in/map.wdl", &["wdl", "tree", "in/map.wdl", "--no-color"], Some(Entry::WdlParse { version: Some(s("wotlk")) })),
     ];
     // ---- completions (no input file)
@@ -257,6 +281,7 @@ fn resolve(entry: &Entry, sb: &Sandbox) -> Entry {
     match entry {
         Entry::MpqCompare { other } => Entry::MpqCompare { other: abs(other) },
         Entry::MpqChain { others } => Entry::MpqChain { others: others.iter().map(abs).collect() },
+        Entry::MpqChainRead { others, names } => Entry::MpqChainRead { others: others.iter().map(abs).collect(), names: names.clone() },
         e => e.clone(),
     }
 }
